@@ -96,6 +96,13 @@ func c01Seal(key []byte, term uint32, ver byte, nonce, plain []byte, storageKey 
 	return g.Seal(out, nonce, plain, aad)
 }
 
+// c01Mine partitions case numbers over shards with a multiplicative hash (plain modulo would correlate with
+// the version / configuration pattern of the generators).
+func c01Mine(n int) bool {
+	shard, shards := kit.Shard()
+	return int((uint32(n)*2654435761)>>16)%shards == shard
+}
+
 // ---------------------------------------------------------------- environment
 
 type c01Env struct {
@@ -621,8 +628,8 @@ func c01Fragment(st, val []byte) int {
 		return -1 // no information: a constant run cannot be told from chance
 	}
 	step := 1
-	if len(val) > 4096 {
-		step = 61
+	if len(val) > 2048 {
+		step = len(val) / 64 // at most ~64 probes into a large value
 	}
 	for off := 0; off+8 <= len(val); off += step {
 		if allSame(val[off : off+8]) {
@@ -808,14 +815,14 @@ func c01Outcome(x c01Read) string {
 
 func TestVerif_C01_RecordShape(t *testing.T) {
 	seed := kit.Seed(1)
-	shard, shards := kit.Shard()
+	_, shards := kit.Shard()
 	r := kit.NewResult(t, "c01-record-shape", seed, "seeded histories on a barrier over a probe store (transactional / plain store x root / namespace barrier x with / without seal-key record): puts through barrier, views, sub-views, transactions, view transactions, multi-write transactions and the Encryptor API, of empty / 1-byte / block-edge / binary / JSON / record-lookalike / large values, under format version 2 and legacy version 1, across key terms produced by Rotate, with RotateRootKey, CreateUpgrade and seal+unseal in between; after every put the stored bytes are opened with crypto/aes+cipher.NewGCM using the keyring recovered from the store with the root key: header term = active term, version as configured (2 by default), exact length, opens only with the storage key as additional data (not with empty / neighbouring / other keys, not under other term keys or the root key), no 8-byte plaintext fragment, fresh nonce; keyring and root-key records are opened with the root key / active key; at the end the whole store is audited. A record check is non-trivial when the value is non-empty; distinct = (config, how, version, term, value shape)")
 	defer r.Write(t)
 	nHist := kit.N(12, 360)
 	steps := kit.N(70, 160)
 	big := kit.N(64<<10, 1<<20)
 	for h := 0; h < nHist; h++ {
-		if h%shards != shard {
+		if !c01Mine(h) {
 			continue
 		}
 		caseID := fmt.Sprintf("shape:%d", h)
@@ -1268,13 +1275,14 @@ func (e *c01Env) buildRecords(t *testing.T, rng *kit.Rand, n, nTerms, big int) [
 
 func TestVerif_C01_Tamper(t *testing.T) {
 	seed := kit.Seed(1)
-	shard, shards := kit.Shard()
-	r := kit.NewResult(t, "c01-tamper", seed, "for every record of a deterministic record set (4 store/barrier configurations x both format versions x key terms from Rotate x 7 write front doors x 14 value shapes): every single-bit flip (all bits up to 512 B, header/nonce/tag/edges + sampled body bits above), byte substitutions, every truncation length, head truncations, 1-3/16 appended bytes and self-concatenation, every term / version header rewrite (neighbouring, live, zero, huge, unknown), blanked nonce/tag/body, the plaintext itself (bare / behind the header), forged well-formed records under attacker keys, splices with other records, and transplants to every other live key and to fresh look-alike keys; each image is planted in the physical store and read through barrier.Get, view, sub-view, read-only tx, read-write tx, view tx and the Decrypt API. Expected: an error (never a panic, never 'absent', never a value) - except a transplanted legacy v1 record, which may return its value. Non-trivial = image differs from the stored bytes; distinct = (config, record, mutation class)")
+	_, shards := kit.Shard()
+	r := kit.NewResult(t, "c01-tamper", seed, "for every record of a deterministic record set (4 store/barrier configurations x 1 (quick) / 10 (thorough) record sets x both format versions x key terms from Rotate x 7 write front doors x 14 value shapes): every single-bit flip (all bits up to 512 B, header/nonce/tag/edges + sampled body bits above), byte substitutions, every truncation length, head truncations, 1-3/16 appended bytes and self-concatenation, every term / version header rewrite (neighbouring, live, zero, huge, unknown), blanked nonce/tag/body, the plaintext itself (bare / behind the header), forged well-formed records under attacker keys, splices with other records, and transplants to every other live key and to fresh look-alike keys; each image is planted in the physical store and read through barrier.Get, view, sub-view, read-only tx, read-write tx, view tx and the Decrypt API. Expected: an error (never a panic, never 'absent', never a value) - except a transplanted legacy v1 record, which may return its value. Non-trivial = image differs from the stored bytes; distinct = (config, record, mutation class)")
 	defer r.Write(t)
-	nRec := kit.N(24, 600)
-	nTerms := kit.N(3, 8)
+	rounds := kit.N(1, 10) // record sets per configuration (small stores keep the per-read transaction snapshots cheap)
+	nRec := kit.N(24, 100)
+	nTerms := kit.N(3, 7)
 	big := kit.N(48<<10, 512<<10)
-	for cfg := range c01Configs {
+	for cfg := 0; cfg < rounds*len(c01Configs); cfg++ {
 		rng := kit.NewRand(seed, uint64(2000+cfg))
 		var e *c01Env
 		var recs []*c01Rec
@@ -1288,7 +1296,7 @@ func TestVerif_C01_Tamper(t *testing.T) {
 			}
 		}
 		for i := 0; i < nRec; i++ {
-			if i%shards != shard {
+			if !c01Mine(cfg*1000 + i) {
 				continue
 			}
 			caseID := fmt.Sprintf("tamper:%d:%d", cfg, i)
@@ -1414,11 +1422,11 @@ func TestVerif_C01_Tamper(t *testing.T) {
 		}
 		// keyring / root-key records: a fresh barrier instance must refuse an altered keyring record
 		caseID := fmt.Sprintf("tamper-keyring:%d", cfg)
-		if kit.WantCase(caseID) && cfg%shards == shard {
+		if kit.WantCase(caseID) && c01Mine(cfg) {
 			e.tamperMeta(t, r, caseID, kit.NewRand(seed, uint64(9000+cfg)))
 		}
 	}
-	r.Require("records_tampered", int64(kit.N(80, 2000)/shards))
+	r.Require("records_tampered", int64(kit.N(80, 3000)/shards))
 	r.Require("records_tampered_v1", 4)
 	r.Require("records_tampered_v2", 12)
 	r.Require("records_tampered_term2", 2)
